@@ -26,6 +26,10 @@ RULES = {
     "containers are restored wholesale"
     " ; P0: the undo code is in a finally (in call_onnx_api or in the context-manager helper it enters)",
     "R5": "passes declaring changes_input = False write model state only through the R4 protocol",
+    "R9": "made-up names are made unique: wherever a pass assigns a value or node name that it builds itself (an f-string or "
+    "concatenation such as `<name>_orig`) rather than moves (`a.name = b.name`) or erases, the assigned expression is the result "
+    "of a function that loops `while <candidate> in <names in use>` - otherwise the new name can equal the name of another value "
+    "of the graph and the serialized model has two values under one name",
     "R8": "a name is erased only from an output that was tested for use: wherever a pass sets `<output>.name = \"\"`, that "
     "very output (the same loop variable, or every output position the erasing loop ranges over) is covered by a use test "
     "(`.uses()` and graph-output membership) - an output position that is blanked but not tested (slice or index set one "
@@ -37,7 +41,7 @@ RULES = {
     "unconditionally before its first use in call()/requires(), so a reused pass object (Sequential, PassManager) does to a "
     "model exactly what a fresh one does",
 }
-FLOORS = {"R1": 18, "R2": 40, "R3": 10, "R4": 4, "R5": 1, "R6": 8, "R7": 5, "R8": 2}
+FLOORS = {"R1": 18, "R2": 40, "R3": 10, "R4": 4, "R5": 1, "R6": 8, "R7": 5, "R8": 2, "R9": 6}
 EXPLANATION = (
     "For every pass class found under onnx_ir.passes: CFG queries over `call` and every helper it reaches that "
     "writes model state (effect summaries with root tags), relating each write to the flag variables that reach "
@@ -720,6 +724,52 @@ def _const_ints(e):
     return None
 
 
+def _has_uniqueness_loop(g) -> bool:
+    for w in own_nodes(g.node):
+        if isinstance(w, ast.While) and any(isinstance(c, ast.Compare) and any(isinstance(o, ast.In) for o in c.ops) for c in ast.walk(w.test)):
+            return True
+    return False
+
+
+def rule_r9(ctx):
+    n = 0
+    for m in ctx.repo.modules.values():
+        if not m.name.startswith("onnx_ir.passes.common.") or m.name.endswith("_test"):
+            continue
+        for f in m.all_funcs:
+            if isinstance(f.node, ast.Lambda):
+                continue
+            for a in own_nodes(f.node):
+                if not (isinstance(a, ast.Assign) and len(a.targets) == 1 and isinstance(a.targets[0], ast.Attribute) and a.targets[0].attr == "name"):
+                    continue
+                v = a.value
+                if isinstance(v, ast.Constant) or (isinstance(v, ast.Attribute) and v.attr == "name"):
+                    continue  # erased, or moved from another object
+                n += 1
+                ok, why = False, "the assigned name is built in place"
+                # resolve a local through its single definition
+                if isinstance(v, ast.Name):
+                    defs = [d.value for d in own_nodes(f.node) if isinstance(d, ast.Assign) and any(isinstance(t, ast.Name) and t.id == v.id for t in d.targets)]
+                    loops = [w for w in own_nodes(f.node) if isinstance(w, ast.While) and any(isinstance(t, ast.Name) and t.id == v.id for x in ast.walk(w) if isinstance(x, ast.Assign) for t in x.targets)]
+                    if loops and any(isinstance(c, ast.Compare) and any(isinstance(o, ast.In) for o in c.ops) for w in loops for c in ast.walk(w.test)):
+                        ok = True
+                    elif len(defs) == 1:
+                        v = defs[0]
+                if not ok and isinstance(v, ast.Call):
+                    d = dotted_of(v.func) or ""
+                    g = f.module.functions.get(d) or (f.owner_class.methods.get(d.split(".")[-1]) if f.owner_class is not None and d.startswith("self.") else None)
+                    if g is not None and _has_uniqueness_loop(g):
+                        ok = True
+                    else:
+                        why = f"`{d}` has no `while <candidate> in <names>` loop"
+                ctx.check("R9", f"{f.local}: `{short(norm(a))}` assigns a name that was made unique", ok, f, a,
+                          f"`{norm(a)[:90]}`: {why} - the made-up name is not compared with the names in use, so it can equal the name of another value or node of "
+                          "the graph (two values under one name: the model no longer passes the checker and consumers bind to the wrong value after a round trip)",
+                          how="right-hand sides of `<x>.name = …` in the pass modules: constant / moved name / result of a function with a uniqueness loop",
+                          construct=f"made-up name without uniqueness loop in {f.local}")
+    ctx.require(n >= 6, f"only {n} name assignments with made-up names found in the pass modules")
+
+
 def rule_sort_snapshots(ctx):
     """Backs the IDIOMS entries of TopologicalSortPass: a flag computed by comparing node sequences before and after `<x>.sort()`
     sees what sort() changes only if the sequences cover every nesting level (sort() reorders subgraphs too)."""
@@ -843,4 +893,5 @@ def run(ctx):
     c05.rule_r5(ctx, rule="R6")
     rule_r7(ctx)
     rule_r8(ctx)
+    rule_r9(ctx)
     rule_sort_snapshots(ctx)
